@@ -13,7 +13,7 @@ names = sorted(os.listdir(os.path.join(ROOT, 'seeded')))
 names = [n for n in names if os.path.isdir(os.path.join(ROOT, 'seeded', n))]
 if args:
     names = [n for n in names if any(n == a or n.startswith(a + '-') for a in args)]
-res_path = os.path.join(ROOT, 'seeded', 'RESULTS.json')
+res_path = os.environ.get('SEED_RESULTS') or os.path.join(ROOT, 'seeded', 'RESULTS.json')
 results = json.load(open(res_path)) if os.path.exists(res_path) else {}
 head = subprocess.run('git -C /repo rev-parse --short HEAD', shell=True, capture_output=True, text=True).stdout.strip()
 for n in names:
@@ -39,4 +39,6 @@ for n in names:
         print(n, 'DETECTED' if results[n]['detected'] else 'MISSED', 'exit', p.returncode, summ[-1][:150] if summ else out[-300:])
     finally:
         subprocess.run(f'git -C /repo worktree remove --force {wt}', shell=True, capture_output=True)
-    json.dump(results, open(res_path, 'w'), indent=1, sort_keys=True)
+    cur = json.load(open(res_path)) if os.path.exists(res_path) else {}       # several evaluations may run side by side
+    cur[n] = results[n]
+    json.dump(cur, open(res_path, 'w'), indent=1, sort_keys=True)
